@@ -1,6 +1,7 @@
 import Urandom.Lemmas.Mix
 import Urandom.Spec.Published
 import Urandom.Props.C02
+import Urandom.Props.C08
 /-
 C09 - Every 64-bit seed gives a valid, distinct generator.
 
@@ -75,17 +76,47 @@ theorem weyl_states_differ (c a b : BitVec 64) (h : a ≠ b) (n : Nat) :
     simp only [Spec.iter]
     exact ih _ _ (fun e => h ((BitVec.add_left_inj _).1 e))
 
-/-
-`distinct_stream_partial`: "two different seeds never produce the same *stream*" is proved above for
-the initial states of all seedable generators, for all later states of the Weyl generators, and for
-the output stream of SplitMix64 (bijective output map).  For Xoshiro256++/+, Wyrand and ChaCha the
-output maps are not injective, so "the infinite output streams differ" is not provable by these
-means (for ChaCha it would be a statement about the cipher); for Xoshiro the state sequences of
-different seeds differ forever because `advance` is a bijection on the cycle (C08 full period).
--/
+/-! ### different seeds give different output STREAMS (Xoshiro256++) -/
+
+/-- the outputs of `n` successive `next_u64` calls are the `++` scrambler along the state sequence -/
+theorem xoshiro_run_u64 (n : Nat) (s : Xoshiro.S) :
+    (Xoshiro.gen.run s (List.replicate n .u64)).1 =
+      (List.range n).map (fun i => Out.w64 (Xoshiro.outPlusPlus (Xoshiro.advance^[i] s))) := by
+  induction n generalizing s with
+  | zero => rfl
+  | succ n ih =>
+    rw [List.replicate_succ, List.range_succ_eq_map, List.map_cons, List.map_map]
+    show Out.w64 (Xoshiro.outPlusPlus s) :: (Xoshiro.gen.run (Xoshiro.advance s) (List.replicate n .u64)).1 = _
+    rw [ih]
+    rfl
+
+/-- **Two different seeds never produce the same stream** of 64-bit outputs from the seeded
+Xoshiro256 (`urandom::seeded`): their initial states differ and are non-zero (above), and two
+different non-zero states of the one full-period cycle give different output sequences
+(`C08.xoshiro_distinct_states_distinct_streams`: the output sequence of xoshiro256++ itself has
+period `2^256 - 1`). -/
 def DistinctStreamsFull : Prop :=
   ∀ a b : BitVec 64, a ≠ b → ∃ n, (Xoshiro.gen.run (Xoshiro.fromSeed a) (List.replicate n .u64)).1 ≠
     (Xoshiro.gen.run (Xoshiro.fromSeed b) (List.replicate n .u64)).1
+
+theorem xoshiro_distinct_seeds_distinct_streams : DistinctStreamsFull := by
+  intro a b hab
+  have hs : Xoshiro.fromSeed a ≠ Xoshiro.fromSeed b := fun h => hab (xoshiro_fromSeed_injective h)
+  obtain ⟨n, hn⟩ := C08.xoshiro_distinct_states_distinct_streams _ _ (xoshiro_fromSeed_ne_zero a) (xoshiro_fromSeed_ne_zero b) hs
+  refine ⟨n + 1, ?_⟩
+  rw [xoshiro_run_u64, xoshiro_run_u64]
+  intro h
+  have h1 := congrArg (fun l => l[n]?) h
+  simp only [List.getElem?_map, List.getElem?_range (Nat.lt_succ_self n), Option.map_some] at h1
+  injection h1 with h2
+  injection h2 with h3
+  exact hn h3
+
+/-
+What remains open of the stream clause: Wyrand (its output map is not known to have fibres of a
+size that forces the argument) and ChaCha (a statement about the cipher); for both the initial
+states and, for the Weyl generators, all later states of different seeds differ (above).
+-/
 
 example : Xoshiro.fromSeed 0#64 ≠ Xoshiro.zeroS := xoshiro_fromSeed_ne_zero _
 
